@@ -98,7 +98,7 @@ func init() {
 	}
 	props["C06"] = PropSpec{
 		Title:       "Opening never crashes or hangs, whatever the input bytes",
-		Explanation: "Decides: (loop-token) every non-range loop of the reader consumes a token on every cycle (Decoder.Token or a reader that always does) and every Token error branch leaves the loop — with a finite input every loop terminates; (reader-recursion) the reader's call graph has no cycle, or recursive calls are guarded by a consumed start element; (init-body) every nil-error return of Open is preceded by a store of a non-nil Body (must-store summaries); (nil-guard) Table.Grid — set by the reader only inside the tblGrid case — is nil-checked before every dereference.",
+		Explanation: "Decides: (loop-token) every non-range loop of the reader consumes a token on every cycle (Decoder.Token or a reader that always does) and every Token error branch leaves the loop — with a finite input every loop terminates; (reader-recursion) the reader's call graph has no cycle, or recursive calls are guarded by a consumed start element AND carry a depth bound (an integer that is compared with a limit and incremented around the call); (init-body) every nil-error return of Open is preceded by a store of a non-nil Body (must-store summaries); (nil-guard) Table.Grid — set by the reader only inside the tblGrid case — is nil-checked before every dereference.",
 		NotDecided:  "panics inside encoding/xml / archive/zip; memory exhaustion; nil dereferences of optional pointers other than Table.Grid and Document.Body",
 		Rules: []Rule{
 			{"loop-token", "token loops terminate (CFG cycles vs consuming calls, error exits)", ruleLoopToken},
